@@ -7,7 +7,7 @@ if ! git diff --quiet; then echo "repo dirty"; exit 9; fi
 if ! git apply "$PATCH"; then echo "patch does not apply"; exit 9; fi
 export GOFLAGS=-mod=mod GOPROXY=off
 go build ./... || { echo "MUTANT DOES NOT COMPILE"; git checkout -- .; exit 9; }
-cd /verif && ./vcheck run "$PROP" --tier "$TIER" | grep -v "^  " | head -12
+cp -f /verif/evidence/$PROP.json /tmp/evid.$$.bak 2>/dev/null; cd /verif && ./vcheck run "$PROP" --tier "$TIER" | grep -v "^  " | head -12
 rc=${PIPESTATUS[0]}
-git -C /repo checkout -- .
+git -C /repo checkout -- .; if [ -f /tmp/evid.$$.bak ]; then mv -f /tmp/evid.$$.bak /verif/evidence/$PROP.json; else rm -f /verif/evidence/$PROP.json; fi
 echo "mutant rc=$rc"
